@@ -80,6 +80,7 @@ PAYLOADS = ['injected fault', '{}', '{name} {0}', '%s %(x)d %', 'line1\nline2', 
 NONDOCS = {'None': None, 'int': 0, 'bytes': b'', 'list': [], 'object': object(), 'tuple': ('a',)}
 
 SETTINGS = {}        # extra pformat settings of the tree under test (per run)
+REPEAT = [False]       # set once per tree: repeat the next single raise-fault several times
 SHARED_TREE = [False]  # the tree has an object that occurs more than once
 PLAN = {}            # invocation index -> (phase, mode, arg)
 COUNT = [0]
@@ -458,6 +459,15 @@ def _check_fault(v, width, faults, base, other, other_base):
             return viol('warnings_differ', 'missing_reference_warning', warnings=gw, ref_warnings=rw), info
     if len(rest) != len(gfired):
         return viol('warnings_differ', 'count', warnings=[m[2][:200] for m in rest], expected=len(gfired)), info
+    if REPEAT[0] and len(faults) == 1:
+        # the very same failing print seven more times: same text, same warnings every time
+        REPEAT[0] = False
+        for rep_no in range(7):
+            g2, w2, _, f2 = _print(v, width, bad_plan)
+            if g2 != got or [m[2] for m in w2] != [m[2] for m in gw]:
+                return viol('repeated_failure_treated_differently', 'repeat_%d' % (rep_no + 2), repeat_text=g2,
+                            repeat_warnings=[m[2][:160] for m in w2], first_warnings=[m[2][:160] for m in gw]), info
+        info['repeated'] = 1
     names = sorted(n for _, n in gfired)
     for m in rest:
         if not m[1]:
@@ -486,6 +496,7 @@ def execute(spec):
     SETTINGS.clear()
     SETTINGS.update(spec.get('settings') or {})
     SHARED_TREE[0] = "'ref'" in repr(tree)
+    REPEAT[0] = True
     width = spec['width']
     other = {'unrelated': [1, NT('z', [2])], 'k': (3,)}
     base = _print(v, width, {})
@@ -504,6 +515,7 @@ def execute(spec):
             counters['configured_%s_%s' % (f[2], 'entry' if f[1] == 0 else 'after')] = \
                 counters.get('configured_%s_%s' % (f[2], 'entry' if f[1] == 0 else 'after'), 0) + 1
         counters['fired'] = counters.get('fired', 0) + info['fired']
+        counters['faults_repeated_8_times'] = counters.get('faults_repeated_8_times', 0) + info.get('repeated', 0)
         counters['fault_cases'] = counters.get('fault_cases', 0) + 1
         if info['fired']:
             if any(f[0] > 0 for f in faults) or has_tc:
